@@ -2238,6 +2238,27 @@ def blend_linked_image(mode: int, rng: random.Random):
     return ase.serialize(ase.Sprite(width=W, height=H, frames=[fr0, fr1])), B, S, lo, co
 
 
+def blend_indexed_image(mode: int, rng: random.Random):
+    """an INDEXED two-layer sprite: the alpha of a pixel comes from its palette entry (entries with alpha 0, 1, 128, 254 among
+    opaque ones); both cels cover the canvas, neither uses the transparent colour index; Normal at 255 / 255 half of the time"""
+    W, H = rng.randint(1, 8), rng.randint(1, 4)
+    n = rng.randint(4, 16)
+    pal = [(rng.randrange(256), rng.randrange(256), rng.randrange(256), rng.choice([255, 255, 255, 0, 1, 128, 254])) for _ in range(n)]
+    tr = rng.choice([200, 255, n])          # a transparent index no pixel uses
+    bi = [rng.randrange(n) for _ in range(W * H)]
+    si = [rng.randrange(n) for _ in range(W * H)]
+    lo, co = rng.choice([(255, 255), (255, 255), (200, 131), (255, 128)])
+    fr = ase.Frame(chunks=[
+        ase.PaletteChunk(first=0, entries=pal),
+        ase.LayerChunk(flags=1, blend=0, opacity=255, name="b"), ase.LayerChunk(flags=1, blend=mode, opacity=lo, name="s"),
+        ase.CelChunk(layer=0, w=W, h=H, pixels=bytes(bi), ctype_cel=rng.choice([0, 2])),
+        ase.CelChunk(layer=1, w=W, h=H, opacity=co, pixels=bytes(si), ctype_cel=0)])
+    def rgba(k):
+        r, g, b, a = pal[k]
+        return (r, g, b, a)
+    return ase.serialize(ase.Sprite(width=W, height=H, depth=8, transparent=tr, frames=[fr])), [rgba(k) for k in bi], [rgba(k) for k in si], lo, co
+
+
 def blend_offset_image(mode: int, rng: random.Random):
     """two-layer sprite whose upper cel is smaller than / shifted against / partly outside the canvas, with runs of opaque,
     translucent and transparent pixels in its rows; S[k] is None where the cel does not cover canvas pixel k"""
@@ -2363,6 +2384,10 @@ def blend_check(prop: str, tier: str, seed: int) -> int:
             for j in range(8 if quick else 60):
                 data, B, S, lo, co = blend_apart_image(m, rng)
                 cases.append((m, -1, "apart", w.put(data), B, S, lo, co))
+            # an indexed sprite (pixel alpha from the palette)
+            for j in range(4 if quick else 40):
+                data, B, S, lo, co = blend_indexed_image(m, rng)
+                cases.append((m, -1, "indexed", w.put(data), B, S, lo, co))
             # frame 0 made of linked cels
             for j in range(4 if quick else 40):
                 data, B, S, lo, co = blend_linked_image(m, rng)
